@@ -1,7 +1,9 @@
 #![forbid(unsafe_code)]
 #![allow(unused, unused_must_use)]
 use gecs::prelude::*;
+#[derive(Clone)]
 pub struct CompA(pub u32);
+#[derive(Clone)]
 pub struct CompB(pub u32);
 pub struct CompRc(pub std::rc::Rc<u32>);
 ecs_world! {
@@ -22,7 +24,7 @@ fn main() {
     let mut world = EcsWorld::default();
     let e = world.create::<ArchFoo>((CompA(1), CompB(2)));
     let e2 = world.create::<ArchFoo>((CompA(3), CompB(4)));
-    { let kept: &CompA = &world.arch_foo.get_slice::<CompA>()[0];
-    let _ = kept.0; }
-    world = world.clone();
+    let kept = world.arch_foo.data.iter().next().unwrap();
+    ecs_iter_destroy!(world, |_x: &Entity<ArchFoo>| { EcsStepDestroy::ContinueDestroy });
+    let _ = kept.1 .0;
 }
